@@ -126,6 +126,15 @@ impl Router {
         }
     }
 
+    fn server_mut(&mut self) -> &mut Server {
+        // Request workers hold clones of the server until they are done. Only this thread
+        // creates clones, so the count can only go down while we wait.
+        while Arc::strong_count(&self.server) > 1 {
+            std::thread::sleep(std::time::Duration::from_millis(1));
+        }
+        Arc::get_mut(&mut self.server).expect("to be the only owner")
+    }
+
     fn on_notification(&mut self, notification: Notification) -> bool {
         if notification.method == "exit" {
             return true;
@@ -134,15 +143,11 @@ impl Router {
         match notification.method.as_str() {
             "textDocument/didChange" => {
                 let params = DidChangeTextDocumentParams::deserialize(notification.params).unwrap();
-                Arc::get_mut(&mut self.server)
-                    .unwrap()
-                    .handle_did_change_text_document(params);
+                self.server_mut().handle_did_change_text_document(params);
             }
             "textDocument/didSave" => {
                 let params = DidSaveTextDocumentParams::deserialize(notification.params).unwrap();
-                Arc::get_mut(&mut self.server)
-                    .unwrap()
-                    .handle_did_save_text_document(params);
+                self.server_mut().handle_did_save_text_document(params);
             }
             default => {
                 debug!("unhandled request: {}", default)
